@@ -90,6 +90,13 @@ async def scenario(loop, plan):
         await asyncio.sleep(0.001)
         if len(gw.sent) != 1:
             raise HarnessError(f"pending command was not sent: {plan}")
+        if pend.get("switch_to") is not None:
+            # the protocol handler is replaced (version negotiation / reset) while the command is still waiting: the new
+            # handler knows nothing about it, whatever arrives afterwards
+            ezsp._switch_protocol_version(pend["switch_to"])
+            h = ezsp._protocol
+            v = ezsp._protocol.VERSION
+            cls = e.EZSP._BY_VERSION[v]
         if pend.get("state") == "timed-out":
             # the command is left unanswered until its caller has timed out; the frame under test arrives afterwards
             await asyncio.wait([task], timeout=15)
@@ -150,6 +157,10 @@ def check(plan) -> Result:
     cls = e.EZSP._BY_VERSION[v]
     frame = bytes.fromhex(plan["frame"])
     pend = plan.get("pending")
+    v0, cls0 = v, cls
+    if pend and pend.get("switch_to") is not None:
+        v = pend["switch_to"]
+        cls = e.EZSP._BY_VERSION[v]
     r = Result(classes=[f"v{v}", "pending" if pend else "idle", "mut:" + plan.get("mut", "?")],
                key=hash((v, pend["name"] if pend else "", pend["seq"] if pend else -1, frame)))
     try:
@@ -172,7 +183,9 @@ def check(plan) -> Result:
             # not a full frame of this version, whatever the deserializer makes of it
             decoded = None
             r.cls("deserializer-accepts-short-payload")
-    answers_pending = bool(pend) and ex is not None and ex[0] == pend["seq"]
+    answers_pending = bool(pend) and ex is not None and ex[0] == pend["seq"] and pend.get("switch_to") is None
+    if pend and pend.get("switch_to") is not None:
+        r.cls("handler-switched-while-pending")
     expect_cb = decoded is not None and not answers_pending
     cbs = out["cbs"][:len(out["cbs"]) - out["cbs_after"]] if out["cbs_after"] else out["cbs"]
     if expect_cb:
@@ -185,7 +198,7 @@ def check(plan) -> Result:
         r.bad("C08:stray-callback-after", f"{plan}")
     if pend:
         kind, val, dt = out["pending_outcome"]
-        pid = cls.COMMANDS[pend["name"]][0]
+        pid = cls0.COMMANDS[pend["name"]][0]
         if kind == "ok":
             if not (answers_pending and decoded is not None and ex[1] == pid and _same(val, decoded)):
                 r.bad("C08:pending-completed-by-foreign-frame", f"{plan}: returned {val!r}; frame id 0x{ex[1] if ex else -1:X} decoded {decoded!r}")
@@ -207,7 +220,7 @@ def check(plan) -> Result:
             r.cls("frame-after-caller-" + pend["state"])
     if out["after"] != "ok":
         r.bad("C08:fresh-command-fails-afterwards", f"{plan}: {out['after']}")
-    valid_for_pending = bool(pend) and answers_pending and decoded is not None and ex[1] == cls.COMMANDS[pend["name"]][0]
+    valid_for_pending = bool(pend) and answers_pending and decoded is not None and ex[1] == cls0.COMMANDS[pend["name"]][0]
     r.nontrivial = bool(frame) and not valid_for_pending and plan.get("mut") != "none"
     if decoded is None and ex is not None and ex[1] in by_id:
         r.cls("known-id-undecodable")
@@ -243,6 +256,21 @@ def plans(draw, versions=None):
         st_ = draw(st.sampled_from([None, None, None, "timed-out", "abandoned"]))
         if st_:
             pend["state"] = st_
+        elif draw(st.integers(0, 4)) == 0:
+            others = [x for x in sorted(e.EZSP._BY_VERSION) if x != v]
+            pend["switch_to"] = draw(st.sampled_from(others))
+    if pend and pend.get("switch_to") is not None:
+        # the frame is one of the NEW version; preferably one whose ID the pending command had in the old version
+        v2 = pend["switch_to"]
+        cls2 = e.EZSP._BY_VERSION[v2]
+        pid = cls.COMMANDS[pend["name"]][0]
+        same_id = [n for n, (cid, _, _) in cls2.COMMANDS.items() if cid == pid]
+        bname = draw(st.sampled_from(same_id)) if same_id and draw(st.booleans()) else draw(st.sampled_from(sorted(cls2.COMMANDS)))
+        cid, tx, rx = cls2.COMMANDS[bname]
+        rxv, rxb = draw(values.schema_strategy(rx))
+        seq = pend["seq"] if draw(st.integers(0, 3)) else draw(st.integers(0, 255))
+        frame = refezsp.header(v2, seq, cid, draw(st.sampled_from([0x80, 0x90]))) + rxb
+        return {"v": v, "pending": pend, "frame": bytes(frame).hex(), "mut": "after-switch"}
     # base frame
     src = draw(st.sampled_from(["same", "other", "other", "invalidCommand", "random"])) if pend else draw(st.sampled_from(["other", "other", "random"]))
     if src == "random":
